@@ -12,7 +12,7 @@ RULE = ("stores built through histories of API calls (deleted entities, sparse i
         "enumeration, import of the export, to_memory(), save()+open() — each copy's dumps and next node/edge id; byte strings through "
         "import_snapshot: every truncation of a valid snapshot, single-bit flips, trailing bytes, wrong version bytes, random bytes, ids "
         "u64::MAX and u64::MAX-1 — the real decoder's result, the model decoder's result and the observed outcome (error, panic, "
-        "complete database) compared. non-trivial = at least two live entities / every byte-string case; distinct = distinct (kind, input)")
+        "complete database) compared; each import of a byte string runs in a child process of the harness (an allocation failure aborts the process: finding K4). non-trivial = at least two live entities / every byte-string case; distinct = distinct (kind, input)")
 
 ASSUMPTIONS = [
     "observable equality is equality of graph dumps (ids, label sets, endpoints, types, property maps with values as bincode bytes, i.e. "
